@@ -142,7 +142,7 @@ def r3_dedup(ctx):
         if cdh[0] == "agg":
             f_ = dict(cdh[3])
             cd = dict(f_["coin_data"][3]) if f_["coin_data"][0] == "agg" else {}
-            r.check(sig(cd.get("covhash", ("unknown", ""))) == "<tmelcrypt::HashVal as std::default::Default>::default()", "marker/covhash", "marker covhash = zero",
+            r.check(sig(cd.get("covhash", ("unknown", ""))) in ("<tmelcrypt::HashVal as std::default::Default>::default()", "[0; 32]"), "marker/covhash", "marker covhash = zero",
                     "marker covhash = %s (spendable?)" % sig(cd.get("covhash", ("unknown", ""))), where)
             r.check(q.const_val(cd.get("value")) == 0, "marker/value", "marker value = 0", "marker value = %s" % sig(cd.get("value", ("unknown", ""))), where)
     fd = ctx.body("melstf::state::applytx::faucet_dedup_pseudocoin", r)
